@@ -610,6 +610,9 @@ func (e *Engine) libIntrinsic(fn *ssa.Function, full string, args []Value) (Valu
 	case "(*regexp.Regexp).MatchString":
 		re := (*args[0].(PtrVal).slot).(*RegexObj)
 		return e.reMatchUnanchored(re.pattern, args[1].(StrVal)), true
+	case "(*regexp.Regexp).Match":
+		re := (*args[0].(PtrVal).slot).(*RegexObj)
+		return e.reMatchUnanchored(re.pattern, e.bytesText(args[1])), true
 	case "(*regexp.Regexp).String":
 		re := (*args[0].(PtrVal).slot).(*RegexObj)
 		return mkStr(re.pattern), true
